@@ -157,7 +157,7 @@ impl Run {
             return true;
         }
         let mut path = String::new();
-        if !self.replay_mode {
+        if !self.replay_mode && inner.violations.len() < 200 {
             let dir = verif_root().join("replays").join(&self.prop);
             let _ = fs::create_dir_all(&dir);
             let file = dir.join(format!("{}.json", sanitize(key)));
